@@ -6,20 +6,34 @@ Document universe D (verif.props.c06_docs; plain-JSON specs, bytes depend on the
     mbox zip tar tgz 7z): the empty document, the rich document (every feature of the format, 2 instances each; thorough also
     3 each), every single feature with 5 (thorough also 6 and 8) DISTINCT instances - style names, hyperlinks, bookmarks,
     images, tables, list items, notes, comments, revisions, text boxes, formulas, units, sheets, rows, recipients, attachments,
-    messages, archive members; OOXML / ODF packages without their optional metadata part - and (thorough) every pair of features with 5 instances each.  A set-ordered collection of 5
-    distinct members has 120 orders, so an order dependence survives all seeds only by coincidence (stated, not exhaustive).
+    messages, archive members; every on/off feature and every variant of a choice feature as a document of its own: optional
+    information absent at every level (OOXML without core-properties part - a generated OOXML document without "meta" has an
+    EMPTY <cp:coreProperties/> -, ODF without meta.xml / with an empty <office:meta/>, e-mail without Date and Message-ID,
+    attachments without file name, embedded message/rfc822), and the 8 forms of the PDF standard security handler (RC4-40,
+    RC4-128, crypt filters /V2 /AESV2 /AESV3, each under the conventional filter name /StdCF and under another name) with empty
+    and with non-empty user password - and (thorough) every pair of features with 5 instances each / every variant.  A
+    set-ordered collection of 5 distinct members has 120 orders, so an order dependence survives all seeds only by coincidence
+    (stated, not exhaustive).
 
 Space `configurations` (clauses hashseed / repeat / reuse-buffer / fresh-process / input-mutated).  Every configuration is a NEW interpreter
 (subprocess, PYTHONHASHSEED in its start environment - os.environ changes after start have no effect on str hashing; the
-worker reports hash("verif-c06") and the run fails as harness error unless the probes of different seeds differ):
+worker reports hash("verif-c06") and the run fails as harness error unless the probes of different seeds differ; it also reports
+where it would import the library from, and the run fails as harness error unless that is the tree the harness interpreter
+judges - PYTHONPATH is handed on, so `PYTHONPATH=<tree> ./check C06` judges <tree> in EVERY process):
   hashseed       one process per PYTHONHASHSEED in {0..3} (quick) / {0..15} (thorough) extracts all of D (quick: 4 processes per
                  seed, each a quarter of D): sha256(json.dumps(to_json(), sort_keys=True)) must be the same for every seed
   repeat         the same document extracted a second time in the same process (new BytesIO over the same bytes) gives the same
                  to_json()
   reuse-buffer   ... and so does a third extraction that is handed the SAME BytesIO object again, exactly as the first
                  extraction left it (same bytes, same path: "repeating it in the same process" as a caller would)
-  fresh-process  the first extraction of a new process (one process per document: every rich document; thorough also every
-                 fixture) gives the same to_json() as the extraction inside the long-running seed-0 process
+  fresh-process  the result does not depend on what the process has extracted before.  Four process histories per document
+                 must give the same to_json(): (a) the FIRST extraction of a new process (one process per document; quick: every
+                 generated document whose counts are all <= 2, i.e. the empty and the rich document, every flag and every
+                 variant document - 99 today; thorough: every document of D incl. the fixtures), (b) the seed-0 sweep process
+                 (history: a part of D), (c) the WARM process - one new interpreter that extracts all of D once in canonical
+                 order - at its first pass (history: the canonical prefix of D) and (d) at its second pass (history: all of D,
+                 every format, every encryption form, every failing input).  reexec compares a new process with a warm process
+                 that has extracted the quick universe.
   input-mutated  the caller's BytesIO holds the same bytes afterwards (a closed buffer counts as lost content); the stream
                  position the library leaves behind is recorded, not judged
 Space `histories` (clause history; explicit-state exploration).  Observer alphabet O = full_text, units (iterate_units + every
@@ -79,7 +93,10 @@ class Proc:
         # process) differ between configurations
         for d in ("tmp", "cwd"):
             os.makedirs(os.path.join(base, d), exist_ok=True)
-        env = {"PYTHONHASHSEED": str(seed), "PYTHONPATH": ROOT, "TZ": "UTC", "LC_ALL": "C.UTF-8", "LANG": "C.UTF-8",
+        # the configuration processes import the library from the SAME place as the harness interpreter (PYTHONPATH is inherited:
+        # `PYTHONPATH=<tree> ./check C06` judges that tree in every process; the worker reports where it found the library)
+        inherited = [p for p in os.environ.get("PYTHONPATH", "").split(os.pathsep) if p and p != ROOT]
+        env = {"PYTHONHASHSEED": str(seed), "PYTHONPATH": os.pathsep.join([ROOT] + inherited), "TZ": "UTC", "LC_ALL": "C.UTF-8", "LANG": "C.UTF-8",
                "PYTHONDONTWRITEBYTECODE": "1", "SP2T_VERIF": "1", "TMPDIR": os.path.join(base, "tmp"),
                "PATH": os.environ.get("PATH", "/usr/bin:/bin"), "HOME": os.path.join(base, "cwd"), "PIP_NO_INDEX": "1"}
         self.p = subprocess.Popen([PY, "-B", "-m", "verif.props.c06_worker"], stdin=subprocess.PIPE, stdout=subprocess.PIPE,
@@ -138,14 +155,19 @@ def _build_task(arg):
     return out
 
 
-def _sweep_one(seed, items, base):
+def _sweep_one(seed, items, base, once=False, passes=1):
+    """one new interpreter: `passes` sweeps over `items` (once: every document extracted exactly once per pass).
+    -> (seed, hello, results of the last pass, error, results of the earlier passes)"""
     p = Proc(seed, base)
     try:
         hello = p.request({"op": "hello"}, 120)
-        ans = p.request({"op": "sweep", "items": items}, 3000)
-        return seed, hello, ans["results"], None
+        earlier = []
+        for _ in range(passes):
+            ans = p.request({"op": "sweep", "items": items, "once": int(once)}, 3000)
+            earlier.append(ans["results"])
+        return seed, hello, earlier.pop(), None, earlier
     except Exception as e:  # noqa
-        return seed, None, [], "%s: %s" % (type(e).__name__, e)
+        return seed, None, [], "%s: %s" % (type(e).__name__, e), []
     finally:
         p.close()
 
@@ -177,6 +199,25 @@ def _rx_proc(seed):
         if p is None or p.p.poll() is not None:
             p = Proc(seed, base)
             _RX["procs"][seed] = p
+        return p
+
+
+def _rx_warm():
+    """the persistent WARM process of reexec (PYTHONHASHSEED=0): a new interpreter that has extracted every document of the
+    quick universe once, in canonical order, before it is asked anything (the same warm-up whatever the tier: fingerprints and
+    replays do not depend on the tier)"""
+    with _RX["lock"]:
+        base = _rx_base()
+        p = _RX["procs"].get("warm")
+        if p is not None and p.p.poll() is None:
+            return p
+        items = []
+        for spec in D.universe("quick"):
+            path, name, _ = _stage_spec(spec)
+            items.append([D.spec_key(spec), path, name])
+        p = Proc(0, base)
+        p.request({"op": "sweep", "items": items, "once": 1}, 3000)
+        _RX["procs"]["warm"] = p
         return p
 
 
@@ -260,9 +301,10 @@ def check_reuse(spec, seed=0):
 
 
 def check_fresh(spec, seed=0):
-    """-> {where: message}: first extraction of a new process vs extraction in a long-running process of the same seed"""
+    """-> {where: message}: first extraction of a new process vs extraction in a process of the same seed that has extracted
+    every document of the quick universe before (the warm process)"""
     path, name, _ = _stage_spec(spec)
-    old = _value(_rx_proc(seed).request({"op": "json", "file": path, "name": name}, 300))
+    old = _value(_rx_warm().request({"op": "json", "file": path, "name": name}, 300))
     p = Proc(seed, _rx_base())
     try:
         new = _value(p.request({"op": "json", "file": path, "name": name}, 300))
@@ -272,7 +314,7 @@ def check_fresh(spec, seed=0):
     for w in O.where_set(old, new):
         x, y = O.first_diff(old, new, w)
         out[w] = (f"the first extraction of a new process differs at {w} from the extraction of the same bytes in a process that has "
-                  f"extracted documents before ({D.spec_key(spec)}): {y} vs {x}")
+                  f"extracted all documents of the universe before ({D.spec_key(spec)}): new process {y}, warm process {x}")
     return out
 
 
@@ -552,12 +594,15 @@ def _run(ctx, tier, seeds, specs, by_key, herr, fails, stage):
     base = tempfile.mkdtemp(prefix="verif-c06-cfg-")
     nchunk = max(1, ncpu // len(seeds))
     jobs = [(s, c) for s in seeds for c in _chunks(items, nchunk) if c]
-    fresh_specs = [s for s in specs if ("gen" in s and s == D.rich_spec(s["gen"], 2)) or ("fix" in s and tier != "quick")]
+    fresh_specs = [s for s in specs if tier != "quick" or ("gen" in s and all(v <= 2 or k in D.CHOICES for k, v in (s.get("n") or {}).items()))]
     fresh_jobs = [(0, [[D.spec_key(s), _file_of(stage, s), D.name_of(s)]]) for s in fresh_specs]
     with ThreadPoolExecutor(max_workers=ncpu) as ex:
+        # the warm process: ONE new interpreter (seed 0) extracts all of D once in canonical order, then all of D once more
+        warm_f = ex.submit(_sweep_one, 0, items, base, True, 2)
         sweep = list(ex.map(lambda j: _sweep_one(j[0], j[1], base), jobs))
         _t("sweep done")
-        fresh = list(ex.map(lambda j: _sweep_one(j[0], j[1], base), fresh_jobs))
+        fresh = list(ex.map(lambda j: _sweep_one(j[0], j[1], base, True), fresh_jobs))
+        warm = warm_f.result()
     shutil.rmtree(base, ignore_errors=True)
     _t("fresh done")
     ht.join()
@@ -568,12 +613,20 @@ def _run(ctx, tier, seeds, specs, by_key, herr, fails, stage):
     # ---- judge the configurations
     probes = {}
     recs = {}           # key -> seed -> rec
-    for seed, hello, results, err in sweep:
+    library = O.library_location()
+    for seed, hello, results, err, _ in list(fresh) + [warm]:
+        if not err and hello.get("library") != library:
+            herr.append(f"a configuration process would import the library from {hello.get('library')}, the harness from {library}")
+            break
+    for seed, hello, results, err, _ in sweep:
         if err:
             herr.append(f"configuration process PYTHONHASHSEED={seed}: {err}")
             continue
         if str(hello.get("hashseed")) != str(seed):
             herr.append(f"configuration process reports PYTHONHASHSEED={hello.get('hashseed')} instead of {seed}")
+        if hello.get("library") != library:
+            herr.append(f"configuration process PYTHONHASHSEED={seed} would import the library from {hello.get('library')}, the harness "
+                        f"judges {library}")
         probes.setdefault(seed, set()).add(hello["probe"])
         for r in results:
             recs.setdefault(r["id"], {})[seed] = r
@@ -629,23 +682,44 @@ def _run(ctx, tier, seeds, specs, by_key, herr, fails, stage):
         if any(r["mut"] for r in rs.values()):
             m = check_input(spec) or f"{key}: the caller's buffer was changed in a configuration process ({[r['mut'] for r in rs.values()]})"
             fails.append(("input-mutated", fmt, {"cfg": "input", "doc": spec}, m))
-    nfresh = 0
-    for seed, hello, results, err in fresh:
+    # fresh-process: the digests of one document in {its own new process, the seed-0 sweep process (history: a part of D),
+    # the warm process at its first pass (history: the canonical prefix of D) and at its second pass (history: all of D)}
+    nfresh = nwarm = 0
+    hist_digests = {}          # key -> {label: digest}
+    for seed, hello, results, err, _ in fresh:
         if err:
             herr.append(f"fresh process: {err}")
             continue
         for r in results:
             nfresh += 1
             evaluations += 1
-            spec = by_key[r["id"]]
-            base_d = recs.get(r["id"], {}).get(0, {}).get("d1")
-            if base_d is not None and r["d1"] != base_d:
-                found = check_fresh(spec)
-                for w, m in sorted(found.items()):
-                    fails.append(("fresh-process", D.fmt_of(spec), {"cfg": "fresh", "doc": spec, "where": w}, m))
-                if not found:
-                    fails.append(("fresh-process", D.fmt_of(spec), {"cfg": "fresh", "doc": spec, "where": None},
-                                  f"{r['id']}: first extraction of a new process gave {r['d1']}, the seed-0 sweep {base_d}; not reproduced"))
+            hist_digests.setdefault(r["id"], {})["new process"] = r["d1"]
+    if warm[3]:
+        herr.append(f"warm process: {warm[3]}")
+    else:
+        for label, results in (("warm process, first pass", warm[4][0]), ("warm process, second pass", warm[2])):
+            if len(results) != len(specs):
+                herr.append(f"{label}: {len(results)} of {len(specs)} documents extracted")
+            for r in results:
+                nwarm += 1
+                evaluations += 1
+                if r["d1"] == "timeout":
+                    herr.append(f"document {r['id']}: extraction exceeded 120 s in the warm process")
+                    continue
+                hist_digests.setdefault(r["id"], {})[label] = r["d1"]
+    for key in sorted(hist_digests):
+        spec = by_key[key]
+        base_d = recs.get(key, {}).get(0, {}).get("d1")
+        ds = hist_digests[key]
+        if base_d is not None and any(d != base_d for d in ds.values()):
+            outcomes.add((D.fmt_of(spec), "process-history", tuple(sorted(k for k, d in ds.items() if d != base_d))))
+            found = check_fresh(spec)
+            for w, m in sorted(found.items()):
+                fails.append(("fresh-process", D.fmt_of(spec), {"cfg": "fresh", "doc": spec, "where": w}, m))
+            if not found:
+                fails.append(("fresh-process", D.fmt_of(spec), {"cfg": "fresh", "doc": spec, "where": None},
+                              f"{key}: the seed-0 sweep process gave {base_d}, but {ds}; not reproduced by a new process against "
+                              "the warm process of reexec"))
 
     _t("configurations judged")
     # ---- judge the histories
@@ -685,7 +759,8 @@ def _run(ctx, tier, seeds, specs, by_key, herr, fails, stage):
            "states": states, "transitions": trans, "traces_validated_against_impl": trans,
            "documents": len(specs), "fixtures": sum(1 for s in specs if "fix" in s), "generated": sum(1 for s in specs if "gen" in s),
            "hash_seeds": seeds, "hash_probe_values_distinct": len({tuple(v) for v in probes.values()}),
-           "configuration_processes": len(jobs) + len(fresh_jobs), "fresh_process_documents": nfresh,
+           "configuration_processes": len(jobs) + len(fresh_jobs) + 1, "fresh_process_documents": nfresh,
+           "warm_process_extractions": nwarm, "library_judged_in_every_process": library,
            "documents_with_seed_dependent_json": sum(1 for v in seed_classes.values() if v > 1),
            "input_position_after_extraction": positions,
            "history_depth": depth, "observers": O.ALPHABET, "documents_explored": explored, "documents_refused_by_library": refused,
@@ -699,7 +774,7 @@ def _run(ctx, tier, seeds, specs, by_key, herr, fails, stage):
            "samples": sorted(samples, key=lambda s: s["doc"]),
            "rule": "D = all fixtures + per generated format {empty, rich x2[, x3], each feature x5[,6,8], [pairs x5]}; configurations = one "
                    "new interpreter per PYTHONHASHSEED over all of D (+ second extraction in the same process, + third extraction from the re-used buffer, + caller buffer compared) "
-                   "and one new interpreter per rich document / fixture; histories = all observer sequences of length <= 2 executed from a "
+                   "; fresh-process: one new interpreter per document with counts <= 2 (thorough: per document) + one warm interpreter extracting all of D twice, once each; histories = all observer sequences of length <= 2 executed from a "
                    "fresh result (generated: new extraction, fixtures: verified deep copy), length 3 (thorough): all triples for fixtures and rich documents, else from states first reached at length 2; states = distinct canonical snapshots reached "
                    "(summed over documents), transitions = observer applications judged; distinct_nontrivial = distinct (format, "
                    "result kind, seed-dependence, state-graph shape, failing) classes"}
@@ -710,6 +785,9 @@ def _run(ctx, tier, seeds, specs, by_key, herr, fails, stage):
         "the stream position of the caller's buffer after extraction is recorded, not judged (the statement speaks of its content); a closed buffer is reported as lost content",
         "reuse-buffer reads 'pure function of (bytes, path)' as: the result does not depend on where an earlier extraction left the stream position of the same buffer",
         "every configuration process gets the same TMPDIR / cwd / HOME strings, so that only hash seed and process identity differ between the compared runs",
+        "every configuration process imports the library from the tree the harness interpreter imports it from (PYTHONPATH handed on; the worker's report is verified)",
+        "process histories are 4 per document (new process, part of D, prefix of D, all of D), not all orderings of D: ordered pairs of extractions are C15's history space",
+        "encrypted PDFs are written by verif.gen.pdfw with the independent AES of verif.ref.aes; IVs / salts are derived from the content, so the bytes are a function of the spec",
         "fixture histories start from a deep copy of one extraction (snapshot-checked); reported failures are re-judged from real extractions",
         "state changes no observer can see (BytesIO positions inside the result) are counted, not judged",
         "documents the library refuses (encrypted / unsupported fixtures) only take part in the configuration clauses (same exception type everywhere)",
